@@ -341,8 +341,9 @@ first `m` solidification step times `dt·iEnd + dt·i`, `i < m`, not exceed the 
   hence the same nucleation statistics and post-nucleation row, which are functions of that state);
 * after `m` solidification iterations its loop is in the same state as the shelf run's (field, ice
   fractions, saved rows, solidification bookkeeping);
-* those saved rows are the first rows of the solidification history of the WHOLE VISF run (the loop only
-  appends): the VISF history starts with the shelf run's rows up to the window. -/
+* those saved rows are the first rows saved by the solidification LOOP of the whole VISF run (the loop only
+  appends).  This is a statement about loop states; the PUBLISHED rows (`Result1D.hist`) are the subject of
+  `run1DOn_published_history` and `visf_run1D_hist_eq_shelf_before_window` below. -/
 theorem visf_run1D_eq_shelf_before_window_both_stages (p : SnowIn ℝ) (v : Visf ℝ) (hv : p.visf = some v)
     (Nz : ℕ) (old : Bool) (shelf : List ℝ) (iEnd m : ℕ) (s : Cool1D ℝ) (hdt : 0 ≤ (grid1D p Nz).dt)
     (hnuc : cool1D (EvapLink.shelfOf p) (grid1D p Nz) old shelf = (some iEnd, s))
@@ -375,14 +376,55 @@ theorem visf_run1D_eq_shelf_before_window_both_stages (p : SnowIn ℝ) (v : Visf
   rw [← hpre.2]
   exact EvapLink.solidAfter_buf_prefix p Nz shelf iEnd s m
 
-/-- the `sol` of `run1DOn` (whose saved rows, all but the last, are the solidification part of the published
-history) IS `solidAfter` at the full length — so the previous theorem speaks about the published rows -/
-theorem solidAfter_is_run_loop {α : Type} [Transc α] (p : SnowIn α) (Nz : ℕ) (shelf : List α) (iEnd : ℕ)
-    (s : Cool1D α) :
-    EvapLink.solidAfter p Nz shelf iEnd s (shelf.drop iEnd).length =
-      iterIdx (solidStep1D p (grid1D p Nz) (saveStride ((grid1D p Nz).NtExp - iEnd)) iEnd
-        ((grid1D p Nz).dt * Num.ofNat' iEnd)) (shelf.drop iEnd) 0 (EvapLink.solidInit p s) :=
-  EvapLink.solidAfter_full p Nz shelf iEnd s _ (Nat.le_refl _)
+/-- **how `run1DOn` builds the published history** from the cooling state and the solidification loop
+`solidAfter … (full length)` (so the loop state of the previous theorem IS what the run publishes): `none` when the
+run raises (a row outside its buffer, solidification not completed), otherwise cooling rows ++ post-nucleation
+row ++ the rows saved by the solidification loop except the last. -/
+theorem run1DOn_published_history {α : Type} [Transc α] (p : SnowIn α) (Nz : ℕ) (old : Bool) (shelf : List α)
+    (iEnd : ℕ) (s : Cool1D α) (hc : cool1D p (grid1D p Nz) old shelf = (some iEnd, s)) :
+    (run1DOn p Nz old shelf).hist =
+      if (saveRow NSave (s.buf, s.oob) (EvapLink.nucRow p Nz iEnd s)).2 then none
+      else if (EvapLink.solidAfter p Nz shelf iEnd s (shelf.drop iEnd).length).oob then none
+      else match (EvapLink.solidAfter p Nz shelf iEnd s (shelf.drop iEnd).length).solEnd with
+        | none => none
+        | some _ => some ((saveRow NSave (s.buf, s.oob) (EvapLink.nucRow p Nz iEnd s)).1 ++
+            (EvapLink.solidAfter p Nz shelf iEnd s (shelf.drop iEnd).length).buf.extract 0
+              ((EvapLink.solidAfter p Nz shelf iEnd s (shelf.drop iEnd).length).buf.size - 1)) :=
+  EvapLink.run1DOn_hist p Nz old shelf iEnd s hc
+
+/-- **real 1D model, PUBLISHED rows before a window that opens later — both stages**: under the hypotheses of
+`visf_run1D_eq_shelf_before_window_both_stages`, whenever the VISF run and the shelf run both publish a history
+(`Result1D.hist = some _`; a run that raises publishes none and nothing is claimed about it), the two published
+histories start with the SAME rows `P`: every cooling row, the post-nucleation row, and the rows saved during the
+first `m` solidification iterations except the last of them. -/
+theorem visf_run1D_hist_eq_shelf_before_window (p : SnowIn ℝ) (v : Visf ℝ) (hv : p.visf = some v)
+    (Nz : ℕ) (old : Bool) (shelf : List ℝ) (iEnd m : ℕ) (s : Cool1D ℝ) (hdt : 0 ≤ (grid1D p Nz).dt)
+    (hnuc : cool1D (EvapLink.shelfOf p) (grid1D p Nz) old shelf = (some iEnd, s))
+    (hm : ∀ i : ℕ, i < m → (grid1D p Nz).dt * iEnd + (grid1D p Nz).dt * i ≤ v.t_vac_start * 3600)
+    (hm0 : 0 < m) (Hv Hs : Array (Row ℝ))
+    (hHv : (run1DOn p Nz old shelf).hist = some Hv)
+    (hHs : (run1DOn (EvapLink.shelfOf p) Nz old shelf).hist = some Hs) :
+    ∃ P tv ts, Hv = P ++ tv ∧ Hs = P ++ ts ∧
+      P = (saveRow NSave (s.buf, s.oob) (EvapLink.nucRow p Nz iEnd s)).1 ++
+        (EvapLink.solidAfter (EvapLink.shelfOf p) Nz shelf iEnd s m).buf.extract 0
+          ((EvapLink.solidAfter (EvapLink.shelfOf p) Nz shelf iEnd s m).buf.size - 1) := by
+  have h0 := hm 0 hm0
+  simp only [Nat.cast_zero, mul_zero, add_zero] at h0
+  refine EvapLink.run1D_hist_prefix_shelf p Nz old shelf iEnd s m hnuc ?_ ?_ Hv Hs hHv hHs
+  · intro i hi v' hv' ⟨h1, _⟩
+    rw [hv] at hv'; cases hv'
+    simp only [ofNat'_real] at h1
+    have h1' : v.t_vac_start * 3600 < (grid1D p Nz).dt * (i : ℝ) := by exact_mod_cast h1
+    have : (grid1D p Nz).dt * (i : ℝ) ≤ (grid1D p Nz).dt * (iEnd : ℝ) :=
+      mul_le_mul_of_nonneg_left (by exact_mod_cast hi) hdt
+    linarith
+  · intro i hi v' hv' ⟨h1, _⟩
+    rw [hv] at hv'; cases hv'
+    simp only [ofNat'_real] at h1
+    have h1' : v.t_vac_start * 3600 < (grid1D p Nz).dt * (iEnd : ℝ) + (grid1D p Nz).dt * (i : ℝ) := by
+      exact_mod_cast h1
+    have := hm i hi
+    linarith
 
 /-- **real 1D model, sampled times**: if the vacuum window is met at none of the step times the loops
 evaluate (`dt·i`, and `dt·iEnd + dt·i` after a nucleation at step `iEnd`), the VISF run equals the shelf run —
